@@ -808,8 +808,12 @@ var _ = tikvrpc.CmdPrewrite
 // CheckWorld runs the monitor over everything a simulated world recorded.
 func CheckWorld(w *sim.World, exempt func(e *sim.Entry) bool) ([]Violation, Stats) {
 	cl := w.Cl
+	entries := w.Frozen
+	if entries == nil {
+		entries = cl.Trace.Since(0)
+	}
 	return Check(Input{
-		Entries: cl.Trace.Since(0),
+		Entries: entries,
 		Txns:    w.Recs(),
 		MaxIssuedBefore: func(c int, ev int64) uint64 {
 			if c < 0 || c >= len(cl.Clients) {
